@@ -62,6 +62,7 @@ type Exec struct {
 	checkFrames bool
 	assignLocs  []assignLoc
 	coverDone   map[string]bool
+	curSite     string
 }
 
 type assignLoc struct {
@@ -461,6 +462,7 @@ func (x *Exec) runBlock(s *State, b *ssa.BasicBlock, pred *ssa.BasicBlock, k con
 		}
 		// havoc loop-carried values and modified heap
 		fr.visited[b] = true
+		var havocked []Val
 		for _, in := range b.Instrs {
 			phi, ok := in.(*ssa.Phi)
 			if !ok {
@@ -472,8 +474,8 @@ func (x *Exec) runBlock(s *State, b *ssa.BasicBlock, pred *ssa.BasicBlock, k con
 				return
 			}
 			nv := Var(x.eng.fresh("l$"+phi.Name()), old.T.Sort)
-			s.assume(x.eng.typeInv(nv, phi.Type(), x.mode, nil))
 			val := Val{T: nv, GoT: phi.Type()}
+			havocked = append(havocked, val)
 			fr.vals[phi] = val
 			if phi.Comment != "" {
 				fr.vars[phi.Comment] = val
@@ -484,7 +486,9 @@ func (x *Exec) runBlock(s *State, b *ssa.BasicBlock, pred *ssa.BasicBlock, k con
 			for k := range x.heapSorts {
 				x.heapHavoc(s, k)
 			}
-			s.alloc = Var(x.eng.fresh("alloc"), SInt)
+			na := Var(x.eng.fresh("alloc"), SInt)
+			s.assume(ILe(s.alloc, na))
+			s.alloc = na
 		} else {
 			for k := range keys {
 				x.heapHavoc(s, k)
@@ -492,6 +496,9 @@ func (x *Exec) runBlock(s *State, b *ssa.BasicBlock, pred *ssa.BasicBlock, k con
 			na := Var(x.eng.fresh("alloc"), SInt)
 			s.assume(ILe(s.alloc, na))
 			s.alloc = na
+		}
+		for _, hv := range havocked {
+			x.assumeTyped(s, hv.T, hv.GoT)
 		}
 		if spec != nil {
 			for _, inv := range spec.Invariants {
@@ -554,6 +561,7 @@ func (x *Exec) runInstrs(s *State, b *ssa.BasicBlock, i int, k contFn) {
 					return
 				}
 				rs = append(rs, v)
+				s.noteEscape(v)
 			}
 			k(s, rs)
 			return
@@ -641,6 +649,31 @@ func (x *Exec) autoInvariants(s *State, fr *Frame, b *ssa.BasicBlock) []namedTer
 		if cur.T == nil {
 			continue
 		}
+		// range pattern: inc = phi + 1; if inc < L (L defined outside the loop): phi < L
+		for _, in2 := range b.Instrs {
+			bo, ok := in2.(*ssa.BinOp)
+			if !ok || bo.Op != token.ADD || bo.X != phi {
+				continue
+			}
+			if c, isC := bo.Y.(*ssa.Const); !isC || c.Value == nil || c.Value.String() != "1" {
+				continue
+			}
+			iff, ok := b.Instrs[len(b.Instrs)-1].(*ssa.If)
+			if !ok {
+				continue
+			}
+			cmp, ok := iff.Cond.(*ssa.BinOp)
+			if !ok || cmp.Op != token.LSS || cmp.X != bo {
+				continue
+			}
+			if lim, err := x.lookupVal(s, fr, cmp.Y); err == nil && lim.T != nil && lim.T.Sort == SInt {
+				if li := x.loopsOf(fr.fn)[b]; li != nil {
+					if def, isInstr := cmp.Y.(ssa.Instruction); !isInstr || !li.body[def.Block()] {
+						out = append(out, namedTerm{"range<len", ILt(cur.T, lim.T)})
+					}
+				}
+			}
+		}
 		nm := phi.Comment
 		if nm == "" {
 			nm = phi.Name()
@@ -685,6 +718,9 @@ func (x *Exec) step(s *State, fr *Frame, in ssa.Instruction) error {
 	case *ssa.Alloc:
 		elem := in.Type().(*types.Pointer).Elem()
 		ref := x.allocRef(s, "new$"+in.Name())
+		if len(x.eng.typeInvClauses(elem)) > 0 {
+			s.fresh = append(s.fresh, freshObj{typ: elem, ref: ref})
+		}
 		lv := &LValue{Kind: lvCell, Ref: ref, Typ: elem}
 		if err := x.store(s, lv, x.eng.zeroOf(elem, x.mode)); err != nil {
 			return err
@@ -711,7 +747,7 @@ func (x *Exec) step(s *State, fr *Frame, in ssa.Instruction) error {
 				return err
 			}
 			t = x.name(s, "v$"+in.Name(), t)
-			s.assume(x.eng.typeInv(t, elem, x.mode, s.alloc))
+			x.assumeTyped(s, t, elem)
 			fr.vals[in] = Val{T: t, GoT: in.Type()}
 			return nil
 		case token.NOT:
@@ -769,6 +805,7 @@ func (x *Exec) step(s *State, fr *Frame, in ssa.Instruction) error {
 		x.bind(s, fr, in, tv(r, in.Type()))
 		return nil
 	case *ssa.Store:
+		x.curSite = oname("store")[len("store:"):]
 		p, err := get(in.Addr)
 		if err != nil {
 			return err
@@ -788,6 +825,7 @@ func (x *Exec) step(s *State, fr *Frame, in ssa.Instruction) error {
 				return fmt.Errorf("store of non-scalar (interior pointer escapes)")
 			}
 		}
+		s.noteEscape(v)
 		return x.store(s, x.lvalueOf(p, elem), v.T)
 	case *ssa.FieldAddr:
 		p, err := get(in.X)
@@ -808,9 +846,12 @@ func (x *Exec) step(s *State, fr *Frame, in ssa.Instruction) error {
 			x.check(s, "safety", oname("nil"), Not(Eq(ref, IntLit(0))), "nil dereference (field address)")
 		}
 		if x.eng.opaqueStruct(styp) {
-			return fmt.Errorf("field of opaque struct %s", styp)
+			fr.vals[in] = Val{LV: &LValue{Kind: lvOpaque, Typ: ft}, GoT: in.Type()}
+			return nil
 		}
 		fr.vals[in] = Val{LV: &LValue{Kind: lvField, Ref: ref, STyp: styp, ST: st, Field: in.Field, Typ: ft}, GoT: in.Type()}
+		// object invariants of *ref hold whenever it is not under construction here
+		x.assumeInv(s, ref, in.X.Type(), TTrue)
 		return nil
 	case *ssa.Field:
 		v, err := get(in.X)
@@ -868,7 +909,7 @@ func (x *Exec) step(s *State, fr *Frame, in ssa.Instruction) error {
 		case *types.Array:
 			x.check(s, "safety", oname("index"), And(ILe(IntLit(0), it), ILt(it, IntLit(u.Len()))), "index out of range")
 			r := x.name(s, "v$"+in.Name(), Select(a.T, it))
-			s.assume(x.eng.typeInv(r, u.Elem(), x.mode, s.alloc))
+			x.assumeTyped(s, r, u.Elem())
 			fr.vals[in] = tv(r, in.Type())
 			return nil
 		case *types.Basic: // string
@@ -1509,12 +1550,13 @@ func (x *Exec) typeAssert(s *State, fr *Frame, in *ssa.TypeAssert, oname func(st
 		rv := Ite(okn, res, x.eng.zeroOf(in.AssertedType, x.mode))
 		rn := x.name(s, "v$"+in.Name(), rv)
 		s.assume(Implies(okn, x.eng.typeInv(rn, in.AssertedType, x.mode, s.alloc)))
+		x.assumeInv(s, rn, in.AssertedType, okn)
 		fr.vals[in] = Val{Tup: []Val{tv(rn, in.AssertedType), tv(okn, types.Typ[types.Bool])}, GoT: in.Type()}
 		return nil
 	}
 	x.check(s, "safety", oname("assert"), ok, "type assertion may fail")
 	rn := x.name(s, "v$"+in.Name(), res)
-	s.assume(x.eng.typeInv(rn, in.AssertedType, x.mode, s.alloc))
+	x.assumeTyped(s, rn, in.AssertedType)
 	fr.vals[in] = tv(rn, in.Type())
 	return nil
 }
@@ -1637,7 +1679,7 @@ func (x *Exec) lookup(s *State, fr *Frame, in *ssa.Lookup, oname func(string) st
 	h := And(Not(Eq(m.T, IntLit(0))), Select(has, k.T))
 	hn := x.name(s, "v$"+in.Name()+"ok", h)
 	v := x.name(s, "v$"+in.Name(), Ite(hn, Select(val, k.T), x.eng.zeroOf(mt.Elem(), x.mode)))
-	s.assume(x.eng.typeInv(v, mt.Elem(), x.mode, s.alloc))
+	x.assumeTyped(s, v, mt.Elem())
 	if in.CommaOk {
 		fr.vals[in] = Val{Tup: []Val{tv(v, mt.Elem()), tv(hn, types.Typ[types.Bool])}, GoT: in.Type()}
 	} else {
@@ -1705,10 +1747,10 @@ func (x *Exec) next(s *State, fr *Frame, in *ssa.Next) error {
 	mt := it.GoT.Underlying().(*types.Map)
 	has, val, ln := x.mapParts(s, mt, it.T)
 	k := Var(x.eng.fresh("next$k$"+in.Name()), x.sortOf(mt.Key()))
-	s.assume(x.eng.typeInv(k, mt.Key(), x.mode, s.alloc))
+	x.assumeTyped(s, k, mt.Key())
 	s.assume(Implies(ok, And(Not(Eq(it.T, IntLit(0))), Select(has, k), ILt(IntLit(0), ln))))
 	v := x.name(s, "next$v$"+in.Name(), Select(val, k))
-	s.assume(x.eng.typeInv(v, mt.Elem(), x.mode, s.alloc))
+	x.assumeTyped(s, v, mt.Elem())
 	fr.vals[in] = Val{Tup: []Val{tv(ok, types.Typ[types.Bool]), tv(k, mt.Key()), tv(v, mt.Elem())}}
 	return nil
 }
